@@ -70,10 +70,26 @@ class TooManySteps(Exception):
 class TimedPool(StatePool):
     """records (virtual time, value) for every demand write"""
 
+    read_limit = None
+
     def __init__(self, **kw):
+        self._utilisation = 0.0
+        self.reads = 0
         super().__init__(**kw)
         self.timed = []
         self.on_write = lambda pool, v: pool.timed.append((trio.current_time(), v))
+
+    @property
+    def utilisation(self):
+        # every regulation step reads the utilisation: a service that stops sleeping is noticed even if it never writes
+        self.reads += 1
+        if self.read_limit is not None and self.reads > self.read_limit:
+            raise TooManySteps(f"{self.reads} regulation steps where at most {self.read_limit} fit")
+        return self._utilisation
+
+    @utilisation.setter
+    def utilisation(self, value):
+        self._utilisation = value
 
 
 def action_time(a, interval):
@@ -100,6 +116,7 @@ def run_case(spec) -> Result:
             raise TooManySteps(f"{len(p.timed)} writes within {m} periods")
 
     pool.on_write = on_write
+    pool.read_limit = 40 * (m + 5) + 20 * len(spec["actions"])
     factory_calls = []
     made = []
     template = spec["ctor"] == "template"
